@@ -8,6 +8,7 @@ cp evidence/*.json ${EVBAK:-/var/tmp/evbak}/
 for d in seeded/*/; do
   name=$(basename $d)
   id=${name%%-*}
+  case " $SKIP_IDS " in *" $id "*) continue;; esac
   git -C /repo diff --quiet || { echo "$name REPO-DIRTY" >> ${REGRESS_OUT:-/var/tmp/regress}/summary.txt; git -C /repo checkout -- .; }
   git -C /repo apply /verif/$d/patch.diff 2>/dev/null || { echo "$name PATCH-FAILS" >> ${REGRESS_OUT:-/var/tmp/regress}/summary.txt; continue; }
   rm -rf replays/$id
